@@ -32,10 +32,6 @@ def oer_features(t, env):
     out = set()
     for x in _walk(t, env):
         k = x["k"]
-        if k == "INTEGER":
-            c = x.get("cons")
-            if c and not c["ext"] and c["lo"] is not None and c["hi"] is not None and c["lo"] >= 0 and c["hi"] >= (1 << 64):
-                out.add("int_bound_beyond_64")           # F93: `(unsigned long long)ub <= ...` wraps
         if k == "SET": out.add("SET")
         if k == "SEQUENCE" and x.get("ext") is not None:
             if not x["comps"]: out.add("empty_extensible_sequence")          # F120
@@ -48,7 +44,6 @@ def oer_skip(syn, t, env, skipped):
     feats = oer_features(t, env)
     fid = None
     if "SET" in feats: fid = "F32"
-    elif "int_bound_beyond_64" in feats: fid = "F93"
     elif "empty_extensible_sequence" in feats: fid = "F120"
     if fid: skipped[fid] += 1
     return fid
@@ -72,12 +67,6 @@ PROPOSED_FINDINGS = [
                         "d BOOLEAN OPTIONAL, e BOOLEAN OPTIONAL, f BOOLEAN OPTIONAL, g BOOLEAN OPTIONAL, h BOOLEAN OPTIONAL, ... } END",
               "type": "T", "op": "rt oer (seq (h (bool t)))", "expect": "^ok 0080ff rc=more"},
   "matcher": "syntax == oer and stage == decode and the type contains an extensible SEQUENCE with >= 8 OPTIONAL/DEFAULT root components"},
- # F93 exists (property C09, table level); proposed addition: properties [C09, C02] + this byte-level witness
- {"id": "F93", "property": "C09", "properties": ["C09", "C02"], "status": "known",
-  "what": "OER width tests cast ub to unsigned long long: INTEGER (0..18446744073709551616) -> {4,1} (X.696 10.2: variable length)",
-  "witness": {"module": "M DEFINITIONS ::= BEGIN T ::= INTEGER (0..18446744073709551616) END", "type": "T",
-              "op": "enc oer (int 5)", "expect": "^ok 00000005$"},
-  "matcher": "syntax == oer and the type contains an INTEGER with lb >= 0 and ub >= 2^64 (X.696 10.4 a: 01 05)"},
 ]
 
 def replay_proposed(ctx):
